@@ -100,3 +100,35 @@ Definition chk_world (c : bool * (((str * bool) * (str * list str)) * observatio
   | inl impl => chk_entries fixed ((sel, is_file), (content, (existing, impl)))
   | inr response => chk_menu fixed ((sel, is_file), (content, (existing, response)))
   end.
+
+(* ---- gophermaps inside a ZIP archive (handlers/ZIP.py VFSZip) ----
+   VFSZip.exists(selector): _getfspathfinal chops len(zipfilename) characters off the
+   selector WHATEVER they are, then one leading and one trailing slash; the rest is
+   looked up in the archive's index.  `members` lists the archive paths of all
+   directories and files ("" is the archive root). *)
+Definition zip_inner (zipname sel : str) : str :=
+  let s := skipn (List.length zipname) sel in
+  let s := match s with c :: r => if c =? GM_SLASH then r else s | [] => [] end in
+  match last_char s with
+  | Some c => if c =? GM_SLASH then drop_last s else s
+  | None => s
+  end.
+Definition k_exists_zip (zipname : str) (members : list str) (sel : str) : bool :=
+  mem_str (zip_inner zipname sel) members.
+
+Definition k_entries_with (ex : str -> bool) (fixed : bool) (sel : str) (is_file : bool) (content : str)
+  : result (list entry) :=
+  gophermap_prepare ex k_populate
+    ((if fixed then gm_linkbase_fixed else gm_linkbase_pinned) (k_kind is_file) sel) content.
+
+(* (model variant, ((zip selector, ((selector, is map file), (content, archive members))), observation)) *)
+Definition chk_zworld (c : bool * ((str * ((str * bool) * (str * list str))) * observation)) : bool :=
+  let '(fixed, ((zipname, ((sel, is_file), (content, members))), obs)) := c in
+  let model := k_entries_with (k_exists_zip zipname members) fixed sel is_file content in
+  match obs, model with
+  | inl (inl cores), Ok es => list_eqb core_eqb (map core_of es) cores
+  | inl (inr 0), Raise IndexError => true
+  | inl (inr 1), Raise ValueError => true
+  | inr response, Ok es => opt_eqb str_eqb (writedir [] [] (gopher0_line SRV_NAME SRV_PORT) es) (Some response)
+  | _, _ => false
+  end.
